@@ -37,6 +37,8 @@ FLOORS["quick"].update({'exact_amount_cases': 200, 'requests_kept_after_timeout'
 FLOORS["thorough"].update({'exact_amount_cases': 1000, 'requests_kept_after_timeout': 12500})
 FLOORS["quick"].update({'refused_amounts': 1000, 'with_exits_by_interrupt_on_granted': 300})
 FLOORS["thorough"].update({'refused_amounts': 5000, 'with_exits_by_interrupt_on_granted': 1500})
+FLOORS["quick"].update({'filter_accepted_with_truthy_non_bool': 2000})
+FLOORS["thorough"].update({'filter_accepted_with_truthy_non_bool': 10000})
 GRID = [0, 0, 1, 1, 2, 3, 0.5]
 INF = float("inf")
 
@@ -89,19 +91,30 @@ def LT(a, b):
 FILTERS = ["any", "key1", "key2", "key3", "odd", "mod3", "mod3", "never"]
 
 
+TRUTHY = [0]          # evaluations of a filter that accepted with a value other than the object True
+
+
+def _counted(v):
+    if v and v is not True:
+        TRUTHY[0] += 1
+    return v
+
+
 def make_filter(name, env):
+    """filters as users write them: some answer with a bool, some with any truthy / falsy value (a bit mask, a match
+    object, the item itself or None) -- a filter accepts an item when its answer is true in the Python sense"""
     if name == "any":
         return lambda it: True
     if name == "key1":
         return lambda it: it.key == 1
     if name == "key2":
-        return lambda it: it.key == 2
+        return lambda it: _counted(("tagged", it.key) if it.key == 2 else None)
     if name == "odd":
-        return lambda it: it.uid % 2 == 1
+        return lambda it: _counted(it.uid & 1)
     if name == "mod3":
         return lambda it: it.uid % 3 == 0
     if name == "key3":
-        return lambda it: it.key == 3
+        return lambda it: _counted(it.key == 3 and "yes")
     return lambda it: False
 
 
@@ -480,13 +493,15 @@ def run_case(case, stats):
 KEYS = ("grants", "advance_checks", "cancels_waiting", "head_cancelled_with_follower", "deliveries_checked",
         "equal_distinct_deliveries", "fcfs_checks", "level_checks", "mixed_syncs", "granted_after_waiting",
         "advance_with_waiters", "cancel_noop_granted", "pokes", "filter_nomatch_waits", "prio_deliveries_from_4plus", "filter_later_getter_checks",
-        "same_object_put_again", "priorityitem_puts", "requests_kept_after_timeout", "exact_amount_cases", "refused_amounts", "with_exits_by_interrupt_on_granted")
+        "same_object_put_again", "priorityitem_puts", "requests_kept_after_timeout", "exact_amount_cases", "refused_amounts", "with_exits_by_interrupt_on_granted", "filter_accepted_with_truthy_non_bool")
 
 
 def one_case(ctx, case):
     import collections
     stats = collections.Counter({k: 0 for k in KEYS})
+    TRUTHY[0] = 0
     lg = run_case(case, stats)
+    stats["filter_accepted_with_truthy_non_bool"] = TRUTHY[0]
     for k in KEYS:
         ctx.count(k, stats[k])
     ctx.count("kind_" + case["kind"])
